@@ -410,7 +410,12 @@ fn parser_inventory(cx: &mut Ctx, facts: &Facts, rule: &str) {
             }
         }
     }
+    // `x += 1` on a 64-bit counter (usize / u64): cannot overflow in any feasible run
+    let wide_increments: BTreeSet<(String, usize)> = cf.asserts.iter().filter(|a| a.kind == "Overflow" && (a.detail.contains("const 1_usize") || a.detail.contains("const 1_u64")) && a.detail.starts_with("Overflow(Add")).map(|a| (a.file.clone(), a.line)).collect();
     let auto = |func: &str, kind: &str, file: &str, line: usize| -> Option<String> {
+        if kind == "assert:Overflow" && wide_increments.contains(&(file.to_string(), line)) {
+            return Some("D.counter64: a 64-bit counter incremented by one (2^64 steps are not feasible)".into());
+        }
         if !(func.starts_with("lexer::Lexer") && file.ends_with("parser/src/lexer.rs")) {
             return None;
         }
